@@ -527,6 +527,7 @@ type FuncContract struct {
 	Requires []*Clause
 	Ensures  []*Clause
 	Loops    map[int]*LoopContract
+	LoopsByDesc map[string]*LoopContract // keyed by "<ranged expression>.<k>" or "for.<k>" (k-th such loop)
 	Modifies []string // heap names or "*"
 	Pure     bool     // function may be called inside specs (its ensures define result)
 	Trusted  bool     // body not verified (assumption, listed)
@@ -605,7 +606,7 @@ func parseContractText(pkg, fname, text string) (*ContractFile, error) {
 				return nil, err
 			}
 			key := strings.TrimSpace(rest)
-			cur = &FuncContract{Key: key, Loops: map[int]*LoopContract{}, Line: where, Diag: true}
+			cur = &FuncContract{Key: key, Loops: map[int]*LoopContract{}, LoopsByDesc: map[string]*LoopContract{}, Line: where, Diag: true}
 			if _, dup := cf.Funcs[key]; dup {
 				return nil, fmt.Errorf("%s: duplicate contract for %s", where, key)
 			}
@@ -667,13 +668,23 @@ func parseContractText(pkg, fname, text string) (*ContractFile, error) {
 			}
 			nstr, rest2 := splitWord(rest)
 			n, err := strconv.Atoi(nstr)
+			var lc *LoopContract
 			if err != nil {
-				return nil, fmt.Errorf("%s: bad loop ordinal %q", where, nstr)
-			}
-			lc := cur.Loops[n]
-			if lc == nil {
-				lc = &LoopContract{}
-				cur.Loops[n] = lc
+				// descriptor: <ranged expression text>.<k> or for.<k>
+				if !strings.Contains(nstr, ".") {
+					return nil, fmt.Errorf("%s: bad loop key %q", where, nstr)
+				}
+				lc = cur.LoopsByDesc[nstr]
+				if lc == nil {
+					lc = &LoopContract{}
+					cur.LoopsByDesc[nstr] = lc
+				}
+			} else {
+				lc = cur.Loops[n]
+				if lc == nil {
+					lc = &LoopContract{}
+					cur.Loops[n] = lc
+				}
 			}
 			kind, body := splitWord(rest2)
 			switch kind {
